@@ -165,3 +165,150 @@ Example header_end_lf_example :
   let h := [71; 69; 84; 32; 47; 10; 72; 58; 49; 10] in      (* "GET /\nH:1\n" *)
   scan hinit h = None /\ header_end h [10; 80] = Some 1%nat /\ scan hinit (h ++ [10; 80]) = Some 11%nat.
 Proof. vm_compute. auto. Qed.
+
+(** * Reads of the plain text phase stay inside one message
+
+    The stream is a sequence of messages, header ++ body, every header ending with its first empty line and
+    ReadRequest answering each header with the length of its body.  [Inv s rest orc left]: [rest] is what has
+    not been handed over yet, [left] the bytes of it that belong to the part (header or body) of the message
+    being handed over. *)
+From Coq Require Import ZifyBool ZifyNat ZifyN.
+
+Definition wf_msg (m : bytes * bytes) : Prop := scan hinit (fst m) = Some (length (fst m)).
+Definition stream_of (msgs : list (bytes * bytes)) : bytes := concat (map (fun m => fst m ++ snd m) msgs).
+Definition orc_of (msgs : list (bytes * bytes)) : list clen := map (fun m => CL (N.of_nat (length (snd m)))) msgs.
+
+Inductive Inv : pst -> bytes -> list clen -> nat -> Prop :=
+| InvBody s bodyrest msgs :
+    ps_header s = [] -> ps_body s = N.of_nat (length bodyrest) -> (0 < length bodyrest)%nat -> Forall wf_msg msgs ->
+    Inv s (bodyrest ++ stream_of msgs) (orc_of msgs) (length bodyrest)
+| InvHeader s hrest body msgs :
+    ps_body s = 0 -> scan hinit (ps_header s) = None ->
+    scan hinit (ps_header s ++ hrest) = Some (length (ps_header s ++ hrest)) -> Forall wf_msg msgs ->
+    Inv s (hrest ++ body ++ stream_of msgs) (CL (N.of_nat (length body)) :: orc_of msgs) (length hrest)
+| InvEnd s : ps_body s = 0 -> ps_header s = [] -> Inv s [] [] 0%nat.
+
+Lemma inv_boundary s msgs : ps_header s = [] -> ps_body s = 0 -> Forall wf_msg msgs ->
+  exists left, Inv s (stream_of msgs) (orc_of msgs) left.
+Proof.
+  intros Hh Hb Hw. destruct msgs as [|[h b] ms].
+  - exists 0%nat. apply InvEnd; assumption.
+  - exists (length h). inversion Hw as [|x l Hm Hms]; subst. unfold wf_msg in Hm. cbn [fst] in Hm.
+    unfold stream_of, orc_of. cbn [map concat fst snd]. rewrite <- app_assoc.
+    apply InvHeader; rewrite ?Hh; cbn [app]; auto.
+Qed.
+
+Lemma inv_after_part s rest msgs : ps_header s = [] -> ps_body s = N.of_nat (length rest) -> Forall wf_msg msgs ->
+  exists left, Inv s (rest ++ stream_of msgs) (orc_of msgs) left.
+Proof.
+  intros Hh Hb Hw. destruct rest as [|x r].
+  - cbn [app]. apply inv_boundary; auto.
+  - exists (length (x :: r)). apply InvBody; auto. cbn; lia.
+Qed.
+
+Lemma scan_prefix_none p q n : scan hinit (p ++ q) = Some n -> (length p < n)%nat -> scan hinit p = None.
+Proof.
+  intros H Hl. rewrite scan_app in H. destruct (scan hinit p) as [m|] eqn:E; [|reflexivity].
+  inversion H; subst. apply scan_le in E. lia.
+Qed.
+
+Lemma firstn_firstn_min {A} (n k : nat) (l : list A) : firstn (Nat.min (length (firstn k l)) n) (firstn k l) = firstn (Nat.min (length (firstn k l)) n) l.
+Proof. rewrite firstn_firstn. f_equal. rewrite firstn_length. lia. Qed.
+
+(** one read: at least one byte, never beyond the end of the part being handed over, and the invariant again *)
+Theorem pm_bytes_stays_inside s rest orc left k max :
+  Inv s rest orc left -> (0 < k)%nat -> (0 < max)%nat -> rest <> [] ->
+  let '(n, s', orc') := pm_bytes s (firstn k rest) max orc in
+  (1 <= n <= left)%nat /\ exists left', Inv s' (skipn n rest) orc' left'.
+Proof.
+  intros HI Hk Hm Hne. unfold pm_bytes. rewrite firstn_firstn_min.
+  set (n := Nat.min (length (firstn k rest)) max).
+  assert (Hn : (1 <= n <= length rest)%nat).
+  { subst n. rewrite firstn_length. destruct rest; [congruence|]. cbn [length]. lia. }
+  destruct HI as [s bodyrest msgs Hh Hb Hpos Hw | s hrest body msgs Hb Hnone Hsome Hw | s Hb Hh].
+  - (* body *)
+    replace (0 <? ps_body s) with true by lia.
+    set (n' := if ps_body s <? N.of_nat n then N.to_nat (ps_body s) else n).
+    assert (Hn' : (1 <= n' <= length bodyrest)%nat /\ (n' <= n)%nat).
+    { subst n'. destruct (ps_body s <? N.of_nat n) eqn:E; lia. }
+    split; [lia|].
+    rewrite skipn_app. replace (n' - length bodyrest)%nat with 0%nat by lia. cbn [skipn].
+    apply inv_after_part; cbn [ps_header ps_body]; auto.
+    rewrite skipn_length. lia.
+  - (* header *)
+    replace (0 <? ps_body s) with false by lia.
+    destruct (Nat.lt_ge_cases n (length hrest)) as [Hlt|Hge].
+    + (* the header does not end in these bytes *)
+      assert (Hf : firstn n (hrest ++ body ++ stream_of msgs) = firstn n hrest).
+      { rewrite firstn_app. replace (n - length hrest)%nat with 0%nat by lia. cbn. apply app_nil_r. }
+      rewrite Hf.
+      assert (Hnone' : scan hinit (ps_header s ++ firstn n hrest) = None).
+      { pose proof Hsome as Hs2. rewrite <- (firstn_skipn n hrest) in Hs2 at 1. rewrite app_assoc in Hs2.
+        eapply scan_prefix_none; [exact Hs2|]. rewrite !app_length, firstn_length. lia. }
+      pose proof (header_end_segmentation (ps_header s) (firstn n hrest) Hnone) as Hseg.
+      rewrite Hnone' in Hseg. destruct (header_end (ps_header s) (firstn n hrest)); [discriminate|].
+      split; [lia|].
+      rewrite skipn_app. replace (n - length hrest)%nat with 0%nat by lia. cbn [skipn].
+      exists (length (skipn n hrest)). apply InvHeader; cbn [ps_header ps_body]; auto.
+      rewrite <- app_assoc, firstn_skipn. exact Hsome.
+    + (* it ends in them: exactly at the end of the header *)
+      assert (Hf : exists x, firstn n (hrest ++ body ++ stream_of msgs) = hrest ++ x).
+      { rewrite firstn_app. rewrite (firstn_all2 hrest) by lia. eauto. }
+      destruct Hf as [x Hf]. rewrite Hf.
+      pose proof (header_end_segmentation (ps_header s) (hrest ++ x) Hnone) as Hseg.
+      rewrite app_assoc, scan_app, Hsome in Hseg.
+      destruct (header_end (ps_header s) (hrest ++ x)) as [i|]; [|discriminate].
+      cbn in Hseg. inversion Hseg as [Hi]. rewrite app_length in Hi.
+      assert (i = length hrest) by lia. subst i.
+      assert (Hh0 : hrest <> []).
+      { intros ->. rewrite app_nil_r in Hsome. congruence. }
+      assert (0 < length hrest)%nat by (destruct hrest; [congruence | cbn; lia]).
+      split; [lia|].
+      rewrite skipn_app, skipn_all, Nat.sub_diag. cbn [skipn app].
+      apply inv_after_part; cbn [ps_header ps_body]; auto.
+  - congruence.
+Qed.
+
+(** non-vacuity: two requests, the first with a body, the second with bare "\n" line ends *)
+Example inv_holds_somewhere :
+  let m1 := ([80; 32; 47; 13; 10; 13; 10], [1; 2; 3]) in let m2 := ([71; 10; 10], []) in
+  Forall wf_msg [m1; m2] /\ exists left, Inv pst0 (stream_of [m1; m2]) (orc_of [m1; m2]) left.
+Proof.
+  cbv zeta. assert (H : Forall wf_msg [([80; 32; 47; 13; 10; 13; 10], [1; 2; 3]); ([71; 10; 10], [])]).
+  { repeat constructor. }
+  split; [exact H|]. apply inv_boundary; auto.
+Qed.
+
+(** every sequence of reads: [(k, max)] — [k] bytes of what is left have arrived, the caller's buffer holds [max] *)
+Inductive all_inside : pst -> bytes -> list clen -> list (nat * nat) -> Prop :=
+| ai_nil s rest orc : all_inside s rest orc []
+| ai_end s orc reads : all_inside s [] orc reads
+| ai_read s rest orc k max reads left n s' orc' :
+    rest <> [] -> Inv s rest orc left -> pm_bytes s (firstn k rest) max orc = (n, s', orc') ->
+    (1 <= n <= left)%nat -> all_inside s' (skipn n rest) orc' reads ->
+    all_inside s rest orc ((k, max) :: reads).
+
+Theorem reads_stay_inside reads : forall s rest orc left,
+  Inv s rest orc left -> Forall (fun km => (0 < fst km)%nat /\ (0 < snd km)%nat) reads ->
+  all_inside s rest orc reads.
+Proof.
+  induction reads as [|[k max] reads IH]; intros s rest orc left HI Hpos; [constructor|].
+  destruct rest as [|x rest0]; [constructor|].
+  inversion Hpos as [|km l [Hk Hm] Hrest]; subst. cbn [fst snd] in Hk, Hm.
+  assert (Hne : x :: rest0 <> []) by discriminate.
+  pose proof (pm_bytes_stays_inside s (x :: rest0) orc left k max HI Hk Hm Hne) as Hstep.
+  destruct (pm_bytes s (firstn k (x :: rest0)) max orc) as [[n s'] orc'] eqn:E.
+  destruct Hstep as [Hn [left' HI']].
+  eapply ai_read; eauto.
+Qed.
+
+Lemma inv_at_the_start msgs : Forall wf_msg msgs -> exists left, Inv pst0 (stream_of msgs) (orc_of msgs) left.
+Proof. intros H. apply inv_boundary; auto. Qed.
+
+Theorem reads_stay_inside_from_the_start msgs reads :
+  Forall wf_msg msgs -> Forall (fun km => (0 < fst km)%nat /\ (0 < snd km)%nat) reads ->
+  all_inside pst0 (stream_of msgs) (orc_of msgs) reads.
+Proof.
+  intros Hw Hp. destruct (inv_at_the_start msgs Hw) as [left HI].
+  exact (reads_stay_inside reads _ _ _ _ HI Hp).
+Qed.
